@@ -9,6 +9,7 @@ From Coq Require Import ZArith List Bool.
 From BV Require Import Lib.Cases Model.LaxSem Model.Restart Model.Pool
      Proofs.PoolJobs Proofs.PoolInv Proofs.PoolCor.
 From BV Require Gen.G_pool_shape.
+From BV Require Import Proofs.PoolSup.
 From BV Require Import Model.PoolSys Proofs.PoolSysProofs.
 Import ListNotations.
 Open Scope Z_scope.
@@ -71,6 +72,23 @@ Definition c07_cfg := mkcfg 2 None None None None 1 true false.
 Definition c07_tr : list event :=
   [EApply None None None None; EApply None None None None; EAck 0 None 0; EClose;
    EApply None None None None; EMap 3 1; EReady 0 None true 5; EAck 1 None 1; EReady 1 None false 6].
+(* close() arriving in the middle of a supervision pass (called from the start-up hook of the
+   (k+1)-th replacement worker): the pass starts no further worker -- at most k+1 in all -- and
+   leaves the pool closed.  A worker started after close() would never be sent a sentinel and
+   join() would wait for it for ever. *)
+Theorem C07_no_worker_started_after_close : forall s k,
+    (Z.to_nat (nprocs (fst (join_exited s)) - Z.of_nat (length (wlist (fst (join_exited s))))) > k)%nat ->
+    (length (procs (fst (do_tick_close s k))) <= length (procs s) + S k)%nat.
+Proof. exact tick_close_starts_at_most. Qed.
+Print Assumptions C07_no_worker_started_after_close.
+
+Theorem C07_pass_with_close_leaves_pool_closed : forall s k s',
+    do_tick_close s k = (s', RNone) ->
+    (Z.to_nat (nprocs (fst (join_exited s)) - Z.of_nat (length (wlist (fst (join_exited s))))) > k)%nat ->
+    pstate s' <> 0.
+Proof. exact tick_close_closes. Qed.
+Print Assumptions C07_pass_with_close_leaves_pool_closed.
+
 (* the drain half, for the closed system in which nothing goes wrong (Model/PoolSys.v, see
    Props/C01.v): the client may call close() at ANY point of ANY schedule; every maximal
    schedule then ends, within 6 n + 1 steps, in a closed pool in which every job accepted before
